@@ -17,13 +17,22 @@
       statement: inputs outside that image which the Turtle run nevertheless accepts (leniencies
       such as `@prefixex: <x> .` or non-grammar white space), and the three finding classes.
 
-  `C07.nt_sub_ttl` (N-Triples ⊂ Turtle) is not proved either; the token-level inclusions are in
-  `Props/C07Tokens.lean`, the Go-side oracle (all four decoders on generated N-Triples documents and
-  on the W3C files) is in go/cmd/c05ttl and go/cmd/c08.
+  `C07.nt_sub_ttl` (N-Triples ⊂ Turtle, all documents accepted by `Spec.NQG.accepts`) is not proved
+  either.  PROVED here: `nt_encoder_sub_ttl_partial` — for every dataset (well-formed triples, labels
+  that are Turtle labels) and every encoder option, the N-Triples text the repository's encoder
+  writes (`NQ.encodeDoc`, the model proved to round-trip in C01) is read by the Turtle AND the
+  TriG model as exactly the triples the N-Triples model reads from it.  I.e. `nt_sub_ttl` restricted
+  to the encoder's own output (one lexical form per term); the text is shown to be `TA.print` of a
+  document of plain triples (`Proofs/C07NT.lean`), then `C08.decode_print_partial` applies.  Other
+  grammatical N-Triples documents (other escapes, white space, comments) are covered by the Go-side
+  oracle only (go/cmd/c05ttl, go/cmd/c08: all four decoders on generated documents and the W3C
+  files); the token-level inclusions are in `Props/C07Tokens.lean`.
 -/
 import RdfModel.Props.C08Doc
 import RdfModel.Props.C07Ttl
 import RdfModel.Props.C07Tables
+import RdfModel.Proofs.C07NT
+import RdfModel.Props.C01Tables
 namespace RdfModel.C07
 open RdfModel RdfModel.TA RdfModel.TtlDoc RdfModel.C08
 
@@ -63,5 +72,67 @@ theorem ttl_sub_trig_grammatical_partial (resolve : Option (List Nat) → List N
   have := C06.ttl_default_graph resolve (inRanges Gen.unicodeSpace) .eof base pf (print Gen.turtle doc ch) q
   rw [h1] at this
   exact this hq
+
+/-- statement of the Turtle model for a triple of the N-Triples model (labels as labelled nodes) -/
+def stmtOfNT (q : Quad (List Nat)) : Stmt := ⟨some (ntTerm q.s), some (ntTerm q.p), ntTerm q.o, none⟩
+
+theorem toStmt_qB {β : Type} (label : β → List Nat) (q : Quad β) :
+    toStmt (C07NT.qB label q) = stmtOfNT (Quad.map label (C01.Quad.dropGraph q)) := by
+  have ht : ∀ t : Term β, (t.map (fun b => B.lbl (label b))).map toBN = ntTerm (t.map label) := by
+    intro t; cases t <;> rfl
+  simp [toStmt, C07NT.qB, stmtOfNT, Quad.map, C01.Quad.dropGraph, ht]
+
+/-- The N-Triples encoder's output is read by the Turtle / TriG model as the same triples. -/
+theorem nt_encoder_sub_ttl_partial {β : Type} (Tn : NQ.Tables) (hTn : C01.TablesOK Tn) (hGn : C01.TablesGrammar Tn)
+    (T : Ttl.Tables) (hT : C02.TablesOK T) (hT2 : TablesOK2 T) (C : Cfg) (hC : CfgOK T C) (ascii : Bool)
+    (label : β → List Nat) (hlab : ∀ b, labelWf T (label b) = true) (urlOk : List Nat → Bool)
+    (qs : List (Quad β)) (hwf : ∀ q ∈ qs, C01.WFQuad urlOk q) :
+    run C .eof none [] (NQ.encodeDoc Tn ascii label false qs) =
+      (qs.map (fun q => stmtOfNT (Quad.map label (C01.Quad.dropGraph q))), .clean) := by
+  obtain ⟨w1, w2, w3⟩ := C07NT.doc_wf_denote T C.resolve label urlOk hlab qs hwf { base := none, ns := [], next := 0 } rfl
+  have hwf' : docWf T C.trig (C07NT.docOf label qs) = true := by
+    cases C.trig
+    · exact w1
+    · exact docWf_trig T _ w1
+  have := decode_print_partial T hT hT2 C hC none [] (C07NT.docOf label qs) (C07NT.choicesOf Tn ascii qs)
+    (qs.map (C07NT.qB label)) hwf' w2 (C07NT.choicesOK_of Tn ascii qs) (by simp [denote, w3])
+  rw [C07NT.print_eq T Tn hTn hGn ascii label urlOk qs hwf] at this
+  rw [this]
+  simp [toStmt_qB]
+
+/-- … together with C01: the N-Triples model and the Turtle / TriG model agree on that text. -/
+theorem nt_encoder_agree_partial {β : Type} (Tn : NQ.Tables) (hTn : C01.TablesOK Tn) (hGn : C01.TablesGrammar Tn)
+    (T : Ttl.Tables) (hT : C02.TablesOK T) (hT2 : TablesOK2 T) (C : Cfg) (hC : CfgOK T C) (ascii : Bool)
+    (label : β → List Nat) (hl : C01.LabelsOK Tn label) (hlab : ∀ b, labelWf T (label b) = true) (urlOk : List Nat → Bool)
+    (qs : List (Quad β)) (hwf : ∀ q ∈ qs, C01.WFQuad urlOk q) :
+    ∃ ts, NQ.run Tn urlOk .eof false (NQ.encodeDoc Tn ascii label false qs) = (ts, .clean) ∧
+      run C .eof none [] (NQ.encodeDoc Tn ascii label false qs) = (ts.map stmtOfNT, .clean) := by
+  refine ⟨_, C01.ntriples_roundtrip Tn hTn urlOk ascii label hl qs hwf, ?_⟩
+  rw [nt_encoder_sub_ttl_partial Tn hTn hGn T hT hT2 C hC ascii label hlab urlOk qs hwf]
+  simp
+
+/-- … for the tables regenerated from /repo: the N-Triples encoder's output through the Turtle and the
+    TriG configuration the driver runs. -/
+theorem nt_encoder_sub_ttl_real {β : Type} (trig : Bool) (resolve : Option (List Nat) → List Nat → Option (List Nat))
+    (ascii : Bool) (label : β → List Nat) (hlab : ∀ b, labelWf Gen.turtle (label b) = true) (urlOk : List Nat → Bool)
+    (qs : List (Quad β)) (hwf : ∀ q ∈ qs, C01.WFQuad urlOk q) :
+    run (C05.realCfg trig resolve (inRanges Gen.unicodeSpace)) .eof none [] (NQ.encodeDoc Gen.ntriples ascii label false qs) =
+      (qs.map (fun q => stmtOfNT (Quad.map label (C01.Quad.dropGraph q))), .clean) := by
+  have hT : C02.TablesOK (if trig then Gen.trig else Gen.turtle) := by cases trig; exact C02.gen_turtle_ok; exact C02.gen_trig_ok
+  have hT2 : TablesOK2 (if trig then Gen.trig else Gen.turtle) := by cases trig; exact gen_turtle_ok2; exact gen_trig_ok2
+  exact nt_encoder_sub_ttl_partial Gen.ntriples C01.gen_ntriples_ok C01.gen_ntriples_grammar _ hT hT2 _ (cfgOK_real trig resolve)
+    ascii label (by cases trig; exact hlab; rw [← gen_tables_eq]; exact hlab) urlOk qs hwf
+
+/-- non-vacuity: the C01 witness dataset (IRIs, labelled blank nodes, literals with escapes, a
+    language tag, a datatype) satisfies the hypotheses with its labeller -/
+example : (∀ q ∈ C01.Witness.quads, C01.WFQuad (fun _ => true) q) ∧ (∀ b, labelWf Gen.turtle (C01.Witness.label b) = true) :=
+  ⟨C01.Witness.wf, by decide⟩
+
+-- … and the conclusion on it, computed: four triples, clean end, with the Turtle configuration
+set_option maxRecDepth 8000 in
+example :
+    let r := run (C05.realCfg false (fun _ r => some r) (inRanges Gen.unicodeSpace)) .eof none []
+      (NQ.encodeDoc Gen.ntriples false C01.Witness.label false C01.Witness.quads)
+    r.1.length = 4 ∧ r.2 = .clean := by decide
 
 end RdfModel.C07
